@@ -323,17 +323,28 @@ def check_grant_equiv(p, w, r):
             r.ok('C04.R4', key, 'every non-granting path is infeasible when the potential is positive', src(fi.module), fi.node.lineno)
 
 
-def mentions_now(fi) -> bool:
-    return any(isinstance(n, ast.Attribute) and n.attr == 'now' for n in ast.walk(fi.node))
+def mentions_now(fi, methods=None, _seen=None) -> bool:
+    """the function, or a same-class method it calls or hands out as a value, reads the clock"""
+    _seen = _seen if _seen is not None else set()
+    if fi.key in _seen:
+        return False
+    _seen.add(fi.key)
+    for n in ast.walk(fi.node):
+        if isinstance(n, ast.Attribute) and n.attr == 'now':
+            return True
+        if methods and isinstance(n, ast.Attribute) and isinstance(n.value, ast.Name) and n.value.id == 'self' and n.attr in methods \
+                and not n.attr.startswith(('_trigger', 'reserve_', 'put', 'get')) and mentions_now(methods[n.attr], methods, _seen):
+            return True
+    return False
 
 
 def check_timers(p, w, r):
     """R2: a time-dependent grant needs a timer that re-runs the trigger."""
     s = w.store
     needs = []
-    if mentions_now(s.methods['_do_reserve_put']):
+    if mentions_now(s.methods['_do_reserve_put'], s.methods):
         needs.append(('put', TP))
-    if mentions_now(s.methods['_do_reserve_get']) or (grant_reads_request(w, 'get') and mentions_now(s.methods['reserve_get'])):
+    if mentions_now(s.methods['_do_reserve_get'], s.methods) or (grant_reads_request(w, 'get') and mentions_now(s.methods['reserve_get'], s.methods)):
         needs.append(('get', TG))
     for which, trig in needs:
         key = f'{s.ci.label}.put::timer→{trig}'
@@ -376,12 +387,14 @@ def check_timers(p, w, r):
                 for i, e in enumerate(evs):
                     if e.kind == 'xcall' and e.name.endswith('.callbacks.append') and e.args and e.args[0] == ('self', trig):
                         cb_events.add(e.name[:-len('.callbacks.append')])
+                        if e.d.get('root_val') is not None:
+                            cb_events.add(e.root_val)
                     if i > first_done:
                         if e.kind == 'yield':
                             break          # the trigger must run in the segment that follows the completed wait
                         if e.kind == 'call' and e.name == trig:
                             fired = True
-                        if e.kind == 'succeed' and e.target in cb_events:
+                        if e.kind == 'succeed' and (e.target in cb_events or e.value in cb_events):
                             fired = True
                 # a path interrupted for good (outer handler) never resumes: exempt if it ends through an Interrupt handler
                 if not fired and not ended_by_interrupt(pa):
